@@ -76,10 +76,30 @@ def make_loop(shape, path, via_apply=False):
     if shape == "internal-proc":
         d = ["(define (lp n acc) (define (k) (+ acc 1)) (if (= (probe n) 0) acc %s))" % W(call("lp", "(- n 1)", "(k)"))]
         return d, "(lp {N} 0)"
+    if shape == "closure-pair":
+        # two closures of ONE lambda expression over different environments (step 1 and step 2) tail-call each other
+        d = ["(define (mk step) (lambda (n acc me peer) (if (= (probe n) 0) acc %s)))" % W(call("peer", "(- n 1)", "(+ acc step)", "peer", "me")),
+             "(define pa (mk 1))", "(define pb (mk 2))"]
+        return d, "(pa {N} 0 pa pb)"
+    if shape == "closure-ring":
+        # three closures of one lambda, each knowing only its successor through its environment
+        d = ["(define (mk step) (define next #f) (list (lambda (n acc) (if (= (probe n) 0) acc %s)) (lambda (p) (set! next p))))" % W(call("next", "(- n 1)", "(+ acc step)")),
+             "(define r1 (mk 1))", "(define r2 (mk 2))", "(define r3 (mk 4))",
+             "((cadr r1) (car r2))", "((cadr r2) (car r3))", "((cadr r3) (car r1))"]
+        return d, "((car r1) {N} 0)"
     raise ValueError(shape)
 
 
-SHAPES = ["self", "mutual2", "mutual3", "higher-order", "variadic", "closure-returned", "internal-var", "internal-proc"]
+def expected(shape, N):
+    """closed form of the loop's result"""
+    if shape == "closure-pair":
+        return (N + 1) // 2 * 1 + N // 2 * 2
+    if shape == "closure-ring":
+        return sum((1, 2, 4)[i % 3] for i in range(N))
+    return N
+
+
+SHAPES = ["self", "mutual2", "mutual3", "higher-order", "variadic", "closure-returned", "internal-var", "internal-proc", "closure-pair", "closure-ring"]
 
 
 def judge(ctx, case, rec, leg):
@@ -119,8 +139,8 @@ def judge(ctx, case, rec, leg):
         ctx.violation(dict(base, kind="incomplete", what="tail loop did not complete", observed={x: last.get(x) for x in ("err", "panic", "fuel_exhausted")}, dedupe=key),
                       {"case": case, "observed": last})
         return
-    if k != "ok" or v != {"i": N}:
-        ctx.violation(dict(base, kind="result", what="loop result differs from the closed form", observed=v, expected=N, dedupe=key), {"case": case, "observed": last})
+    if k != "ok" or v != {"i": expected(shape, N)}:
+        ctx.violation(dict(base, kind="result", what="loop result differs from the closed form", observed=v, expected=expected(shape, N), dedupe=key), {"case": case, "observed": last})
         return
     if not pr or pr["n"] != N + 1:
         ctx.violation(dict(base, kind="samples", what="probe was not called once per iteration", got=(pr or {}).get("n"), expected=N + 1), {"case": case})
